@@ -246,6 +246,8 @@ Complete(C, t, v, sels, path, site) ==
   \* leaf: output coercion can fail (C06: null at that position plus one error addressing it).  The universes of this family
   \* hold well-typed leaves except where they say otherwise: a word where a number or a boolean is declared (C05 has the full table)
   ELSE IF t.n \in {"Int", "Float", "Boolean"} /\ v.k = "str" THEN Res(NullV, <<ErrRec(path, "coercion", "")>>, <<>>)
+  \* ... a *ggql.Subscription where a leaf is declared (a subscription is a value of no declared type)
+  ELSE IF v.k = "subval" THEN Res(NullV, <<ErrRec(path, "coercion", "")>>, <<>>)
   ELSE Res(v, <<>>, <<>>)
 
 \* a list accessor (AnyResolver.Nth) failing for element i of the list returned at `site`:
